@@ -286,3 +286,154 @@ func (e *Engine) globalFacts(c *FnCtx) {
 		c.gfact(fmt.Sprintf("(not (= %s 0))", c.heapIn(c.entry, n)))
 	}
 }
+
+// ---------- local variable cells that no callee can write ----------
+
+// calleeImmutable: the Alloc is a local variable whose address is used only by this function's own
+// loads/stores and is captured only by closures that merely read it. No callee can then modify it,
+// whatever else it havocs.
+func (e *Engine) calleeImmutable(a *ssa.Alloc) bool {
+	return e.addrOnlyLocal(a, 0)
+}
+
+func (e *Engine) addrOnlyLocal(v ssa.Value, depth int) bool {
+	if depth > 3 {
+		return false
+	}
+	refs := v.Referrers()
+	if refs == nil {
+		return false
+	}
+	for _, r := range *refs {
+		switch x := r.(type) {
+		case *ssa.DebugRef:
+		case *ssa.UnOp:
+			// load
+		case *ssa.Store:
+			if x.Addr != v {
+				return false // the address itself is stored somewhere
+			}
+		case *ssa.FieldAddr:
+			if !e.fieldAddrLocal(x) {
+				return false
+			}
+		case *ssa.IndexAddr:
+			if !e.fieldAddrLocal(x) {
+				return false
+			}
+		case *ssa.MakeClosure:
+			fn := x.Fn.(*ssa.Function)
+			for i, b := range x.Bindings {
+				if b == v {
+					if i >= len(fn.FreeVars) || !e.freeVarReadOnly(fn.FreeVars[i], depth+1) {
+						return false
+					}
+				}
+			}
+		default:
+			return false
+		}
+	}
+	return true
+}
+
+func (e *Engine) fieldAddrLocal(v ssa.Value) bool {
+	refs := v.Referrers()
+	if refs == nil {
+		return false
+	}
+	for _, r := range *refs {
+		switch x := r.(type) {
+		case *ssa.DebugRef, *ssa.UnOp:
+		case *ssa.Store:
+			if x.Addr != v {
+				return false
+			}
+		case *ssa.FieldAddr, *ssa.IndexAddr:
+			if !e.fieldAddrLocal(x.(ssa.Value)) {
+				return false
+			}
+		default:
+			return false
+		}
+	}
+	return true
+}
+
+func (e *Engine) freeVarReadOnly(fv *ssa.FreeVar, depth int) bool {
+	refs := fv.Referrers()
+	if refs == nil {
+		return true
+	}
+	for _, r := range *refs {
+		switch x := r.(type) {
+		case *ssa.DebugRef, *ssa.UnOp:
+		case *ssa.FieldAddr:
+			// reading through a field address is fine as long as nothing is stored through it
+			if !e.readOnlyAddr(x) {
+				return false
+			}
+		case *ssa.IndexAddr:
+			if !e.readOnlyAddr(x) {
+				return false
+			}
+		case *ssa.MakeClosure:
+			fn := x.Fn.(*ssa.Function)
+			for i, b := range x.Bindings {
+				if b == ssa.Value(fv) {
+					if depth > 3 || i >= len(fn.FreeVars) || !e.freeVarReadOnly(fn.FreeVars[i], depth+1) {
+						return false
+					}
+				}
+			}
+		default:
+			return false
+		}
+	}
+	return true
+}
+
+func (e *Engine) readOnlyAddr(v ssa.Value) bool {
+	refs := v.Referrers()
+	if refs == nil {
+		return true
+	}
+	for _, r := range *refs {
+		switch x := r.(type) {
+		case *ssa.DebugRef, *ssa.UnOp:
+		case *ssa.FieldAddr, *ssa.IndexAddr:
+			if !e.readOnlyAddr(x.(ssa.Value)) {
+				return false
+			}
+		default:
+			return false
+		}
+	}
+	return true
+}
+
+type protCell struct {
+	ref   string
+	heaps []string
+	alloc *ssa.Alloc
+}
+
+// restoreProtected: after a havoc caused by a call, the rows of callee-immutable local cells are unchanged
+func (c *FnCtx) restoreProtected(pre map[string]string) {
+	c.restoreProtectedExcept(pre, nil)
+}
+
+func (c *FnCtx) restoreProtectedExcept(pre map[string]string, written map[*ssa.Alloc]bool) {
+	for _, pc := range c.protected {
+		if written[pc.alloc] {
+			continue
+		}
+		for _, h := range pc.heaps {
+			old := c.heapIn(pre, h)
+			cur := c.H(h)
+			if old != cur {
+				c.fact(fmt.Sprintf("(= (select %s %s) (select %s %s))", cur, pc.ref, old, pc.ref))
+			}
+		}
+	}
+}
